@@ -32,7 +32,6 @@ spec fn grows(a: HashMap<OsCode, Vec<OsCode>>, b: HashMap<OsCode, Vec<OsCode>>) 
 //@@ no-derives
 //@ item keyberon/src/action/switch.rs enum BreakOrFallthrough
 //@@ keep-vis
-//@@ no-derives
 //@ item keyberon/src/action/switch.rs type Case
 //@@ keep-vis
 //@ item keyberon/src/action/switch.rs struct Switch
@@ -192,7 +191,7 @@ spec fn can_output(a: KanataAction, slot: OsCode, k: OsCode) -> bool
                     ito.seq().len() == cacs@.len(),
                     forall|i: int| 0 <= i < cacs@.len() ==> *(#[trigger] ito.seq()[i]) == cacs@[i],
                     forall|j: int, k: OsCode| 0 <= j < ito.index@ && #[trigger] custom_out(*cacs@[j], k) ==> outputs.has(osc_slot, k),
-//@@ loop-at `CustomAction::Unmodded { keys, .. } | CustomAction::Unshifted { keys } =>`
+//@@ loop-at `for k in iti: keys.iter()`
                             invariant
                                 grows(*old(outputs), *outputs),
                                 iti.seq().len() == keys@.len(),
